@@ -20,15 +20,22 @@ def owns_violation(v):
 
 
 def jobs(tier, seed):
-    J = fblock.jobs_for("h_trunc", tier, seed, extra=dict(huge_alloc_is_violation=True, throw_is_violation=True))
+    J = fblock.jobs_for("h_trunc", tier, seed, budget_quick=6, extra=dict(huge_alloc_is_violation=True, throw_is_violation=True))
     for j in J:
         j["mod"] = "fblock"
+    F = []
     if tier == "quick":
-        for ver, feat in ((fmfile.SSE, fmfile.SKIN), (fmfile.OB, fmfile.SKIN | fmfile.COLL), (fmfile.FO4, fmfile.EXTRA), (fmfile.SK, fmfile.SHAPE2)):
-            J.append(dict(entry="h_file_trunc", args=[ver, feat, 1], budget=110, mod="fmfile", huge_alloc_is_violation=True, throw_is_violation=True))
+        # truncation points of each file are split into 6 ranges explored by parallel jobs
+        for ver, feat in ((fmfile.SSE, fmfile.SKIN), (fmfile.FO4, fmfile.EXTRA), (fmfile.OB, fmfile.SKIN | fmfile.COLL)):
+            for seg in range(5):
+                F.append(dict(entry="h_file_trunc", args=[ver, feat, 1, seg, 5], budget=90, mod="fmfile", huge_alloc_is_violation=True, throw_is_violation=True))
     else:
-        J += fmfile.jobs("h_file_trunc", tier, extra_args=[1], budget=1200, huge_alloc_is_violation=True, throw_is_violation=True)
-    return J
+        for j in fmfile.jobs("h_file_trunc", tier, extra_args=[1, 0, 1], budget=1200, huge_alloc_is_violation=True, throw_is_violation=True):
+            for seg in range(8):
+                k = dict(j)
+                k["args"] = j["args"][:3] + [seg, 8]
+                F.append(k)
+    return F + J  # the long file-level jobs start first
 
 
 def signature(job, v):
